@@ -156,7 +156,7 @@ func (c *Ctx) ruleServeRouting(r2, r3 *RuleRep) {
 		return
 	}
 	r2.Floor(7)
-	r3.Floor(12)
+	r3.Floor(8)
 	ackKinds := []string{"pktConnAck", "pktPubAck", "pktPubRec", "pktPubComp", "pktSubAck", "pktUnsubAck", "pktPingResp"}
 	for _, want := range ackKinds {
 		key := "serve/" + want
